@@ -6,7 +6,7 @@ ROOT = os.path.dirname(os.path.dirname(os.path.abspath(__file__)))
 
 CHECKS = {
  # id: (technique, level text, level note, design ref)
- "C19": ("Hypothesis-generated pytree descriptions (plus stacked real env states); round-trip, frame and reference-predicate oracles; collect-then-shrink",
+ "C19": ("Hypothesis-generated pytree descriptions incl. None / string / scalar leaves and lossy cross-dtype pairs (plus stacked real env states); round-trip, frame and reference-predicate oracles; collect-then-shrink",
          "Generated-input exploration: thousands of random nests (7 dtypes, rank 0-3 incl. size 0, 5 container kinds) and stacked real environment states are pushed through tree_transpose/tree_slice/tree_add_element and the equality helpers and compared with oracles written from the statement (np.stack frame condition, Python-list equality). Pure functions over a small input grammar: sampling at this density is the appropriate level.",
          "Trusts numpy's stack/tolist and JAX array construction; NaN leaves and structurally different pairs are outside the domain.", "3/C19"),
 }
@@ -14,24 +14,24 @@ CHECKS.update({
  "C01": ("Hypothesis-generated reset keys x mask-relative episode plans (legal/illegal/raw/survive) over finite constructor menus; independent spec-walker oracle cross-checked with spec.validate; jax.eval_shape for shapes/dtypes of all inputs at once",
          "Generated-history exploration of all 23 environments x 2-8 constructor configurations each: every emitted observation/reward/discount from reset to the terminal step (time-limit boundary, invalid move, completion - distribution reported in evidence) is validated against the declared specs by an independent walker; generate_value() membership and acceptance by step are checked per configuration. Shapes and dtypes are decided for all inputs per configuration through abstract evaluation; bounds need search, which is what this level provides.",
          "Finite configuration menus (vf/envs.py); extras and post-LAST values are out of scope; Sokoban uses offline generators.", "3/C01"),
- "C03": ("Hypothesis-generated keys x episode plans continued past LAST; FIRST/MID/LAST protocol monitor over the whole history",
+ "C03": ("Hypothesis-generated keys x episode plans continued past LAST; FIRST/MID/LAST protocol monitor over the whole history; coincidence cases (constructive episode replayed with time_limit = its completion step)",
          "Generated-history exploration: a monitor checks reset (FIRST, zero reward, unit discount, spec shapes) and every step including up to 4 steps issued after the first LAST (type in {MID, LAST}, discount in [0,1], MID not all-zero, LAST all-zero with the documented LBF truncation exception) on all 23 environments; evidence reports how many histories reached LAST per environment and cause.",
          "LBF LAST at step_count >= time_limit may carry discount one; finite menus.", "3/C03"),
- "C11": ("metamorphic twin env(T) vs env(T+5) on identical key and concrete actions, T in {1,2,3,7,default,None}; survive-biased Hypothesis plans; structural-horizon bound from the reset instance for the 10 untimed envs",
+ "C11": ("metamorphic twin env(T) vs env(T+5) on identical key and concrete actions, T in {1,2,3,7,default,None}; survive-biased and purposeful (solver) Hypothesis plans up to mid-sized limits; documented-other-reasons predicate for a LAST before the limit; structural-horizon bound from the reset instance for the 10 untimed envs",
          "Generated-history exploration with a metamorphic oracle that needs no model of 'other reasons': the same key and actions are played in env(T) and env(T+5); step types must agree before T, env(T) must be LAST exactly at T. Policies are look-ahead 'survive' plans so that most episodes reach T (reported per env). Untimed CO environments are checked against a horizon computed from the instance (items, nodes, cells, operations).",
          "Assumes the time limit affects termination only; documented None defaults (rows*cols, 1000).", "3/C11"),
 })
 CHECKS.update({
- "C02": ("Hypothesis-generated call histories: stored (args -> result) pairs re-issued on the same object, on a fresh instance in reverse order, eagerly, inside vmap batches and as one lax.scan; argument snapshots (values + field identities); jaxpr effect scan",
+ "C02": ("Hypothesis-generated call histories: stored (args -> result) pairs re-issued on the same object, on a fresh instance in reverse order, eagerly, inside vmap batches and as one lax.scan; argument snapshots (values + field identities); jaxpr effect scan; event-directed eager sampling (jitted pool search, rarest outcome groups re-executed in plain Python); interference round (wrappers / adapters run on the same object in between); process-isolation differential under other string-hash salts",
          "Generated-history exploration of purity and of commutation with jit/vmap/scan on all 23 environments: bitwise determinism under repetition and on fresh instances, arguments untouched (also under rationed eager execution where Python-level mutation is possible), eager vs jit vs vmap vs scan agreement within a measured float tolerance, and a structural scan of the traced programs for effects/callbacks.",
          "Histories, batch sizes and scan lengths are sampled (batch 3, length 10), eager calls rationed to a few per configuration; float tolerance rtol 1e-5.", "3/C02"),
- "C13": ("side-by-side differential oracle against the reference composition (unwrapped step; on LAST reset with split(terminal key)[0]) on Hypothesis-generated multi-episode runs; re-run as lax.scan and under vmap",
+ "C13": ("side-by-side differential oracle against the reference composition (unwrapped step; on LAST reset with split(terminal key)[0]) on Hypothesis-generated multi-episode runs (incl. constructive plans that end episodes by completion, long purposeful runs, stacked wrappers, typed keys); re-run as lax.scan, under vmap and (rationed) in plain Python; key-repeat and cross-run key-collapse oracles",
          "Generated-history exploration over real environments (not the test fake), both next_obs_in_extras settings: every wrapped step is compared leaf by leaf with the reference composition; runs span many episode boundaries (counted in evidence); key freshness and instance variety are checked per run; the same run is repeated as one jitted scan and under vmap.",
          "Reference key derivation split(key)[0] as documented in the wrapper; finite env/config menu.", "3/C13"),
- "C14": ("differential oracles on Hypothesis-generated batches: VmapWrapper slices vs unwrapped execution; VmapAutoResetWrapper vs VmapWrapper(AutoResetWrapper) step by step with staggered terminations; identity-render probe",
+ "C14": ("differential oracles on Hypothesis-generated batches: VmapWrapper slices vs unwrapped execution; VmapAutoResetWrapper vs VmapWrapper(AutoResetWrapper) step by step with staggered terminations (batch sizes 1..6 and 129..257, stacked wrappers, typed keys, rationed plain-Python steps); identity-render probe",
          "Generated-history exploration: batch sizes 1..6, per-element keys and plans so that none/some/all elements terminate on a step (histogram in evidence), 18 consecutive steps per case; both auto-reset compositions must agree at every step and index; render must return element 0.",
          "Float tolerance rtol 1e-5 between differently batched programs; finite env/config menu.", "3/C14"),
- "C15": ("model-based testing of the stateful adapters: Hypothesis-generated operation sequences (reset / reseed / step) applied to the adapter and to a native shadow following the documented key schedule; membership in converted spaces",
+ "C15": ("model-based testing of the stateful adapters: Hypothesis-generated operation sequences (reset / reset(seed) / seed() method / step; one-agent configurations included) applied to the adapter and to a native shadow following the documented key schedule; membership in converted spaces",
          "Generated operation sequences over gym, dm_env and MultiToSingle adapters on real environments: observations, rewards, terminated/truncated flags, first-timestep conventions and re-seeding reproducibility are compared with a native shadow after every operation; observations must belong to the converted space/spec and sampled gym actions must validate natively; aggregator pairs drawn from {sum,max,min,mean,prod}.",
          "After LAST the sequence always resets (stepping a finished episode is outside the contract); dm_env re-seed = new adapter object.", "3/C15"),
 })
